@@ -747,6 +747,18 @@ func suiteC15(c *Ctx) {
 		}
 	}
 	flush()
+	// a wrong count is reported at its own declaration also when something inside the item was reported before
+	for _, inner := range []string{"<A[2] \"x\">", "<U1[3] 1>", "<U1 300>", "<B 0x1ff>", "<L[2] <A \"y\">>", "<I1 1.5>", "<A 200>"} {
+		for _, ty := range []string{"L"} {
+			pre := "S1F1 <" + ty
+			add(fmt.Sprintf("%s[3] %s> .", pre, inner), true, len(pre)+1)
+		}
+	}
+	for _, body := range []string{"300 1", "-1", "256 257 258 259"} {
+		pre := "S1F1 <U1"
+		add(fmt.Sprintf("%s[3] %s> .", pre, body), len(strings.Fields(body)) != 3, len(pre)+1)
+	}
+	flush()
 	// bounds are decimal numbers: leading zeros do not make them octal
 	for _, ty := range []string{"A", "U1", "L", "B"} {
 		pre := "S1F1 <" + ty
@@ -1632,9 +1644,15 @@ var c04Names = []string{"", "Ver.", "a.b.", "x..", "Name", "AreYouThere", "étab
 func suiteC04(c *Ctx) {
 	// deep nesting: the printed form of a chain of lists is parsed back whatever its depth (the printed text grows
 	// with the square of the depth and the lexer is slow on it: 1100 levels, half a minute, in the thorough tier only)
-	depths := []int{40, 150}
+	depths := []int{40, 150, 300}
 	if c.thorough {
-		depths = append(depths, 600, 1100)
+		depths = append(depths, 500)
+	}
+	// far deeper trees written on one line (the printed form of a tree 1100 deep has 2.4 million characters of
+	// indentation and takes the lexer minutes; the same tokens without the indentation take a moment)
+	for _, d := range []int{1001, 1100, 2500} {
+		text := "S1F1 H->E Deep\n" + strings.Repeat("<L ", d) + "<U1 7>" + strings.Repeat(">", d) + " .\n"
+		c.emit(Case{"deep-compact", []Step{smlStep(text)}, false})
 	}
 	for _, d := range depths {
 		g := c.gen()
@@ -1767,6 +1785,13 @@ func monitorC04(c *Ctx, id string, cs Case, e *Exec, final []string) {
 				c.hit(id, cs, what+"-bytes-differ", fmt.Sprintf("%q", short(o.String())))
 			}
 		}
+	}
+	if cs.Label == "deep-compact" {
+		res, ok := e.Pool[0].(smlRes)
+		if !ok || len(res.errs) != 0 || len(res.msgs) != 1 {
+			c.hit(id, cs, "deep-text-refused", fmt.Sprintf("%q: %v", short(string(cs.Steps[0].S)), e.Pool[0]))
+		}
+		return
 	}
 	if cs.Label == "print-parse" {
 		n := len(cs.Steps)
